@@ -591,6 +591,8 @@ template <class R> struct GuardedRand
         return r.nextf (a, b);
     }
     void nexti () { r.nexti (); }
+    // next raw value of the wrapped generator (advances it): used to compare generator states
+    unsigned long probe () { return (unsigned long) r.nexti (); }
 };
 
 template <class V, class T, int N, class R0> static void sampler_case (vp::Ctx& c, const char* vn, const char* rn, unsigned long seed, int skip, int draws)
@@ -630,7 +632,28 @@ template <class V, class T, int N, class R0> static void sampler_case (vp::Ctx& 
         c18_measure ("hollow-dev-eps", (double) (qabs (hl - 1) / eps));
         VP_REQUIRE (c, qabs (hl - 1) <= 4 * eps, "hollowSphereRand-not-unit", "hollowSphereRand<" << vn << ">(" << rn << " seed " << seed << ") = " << vstr (h, N) << " has length " << qstr (hl) << " (|len-1| = " << (double) (qabs (hl - 1) / eps) << " eps, limit 4)");
 
-        float g = IM::gaussRand (r);
+        // every sampler must be a pure function of the generator state it is handed: equal states give equal
+        // samples AND leave equal successor states (no hidden state carried between calls or generators)
+        {
+            R hc = copy; // state before hollowSphereRand == state of 'copy' after its solidSphereRand
+            V h2 = IM::hollowSphereRand<V> (hc);
+            for (int i = 0; i < N; ++i)
+                VP_REQUIRE (c, same<T> (h[i], h2[i]), "sampler-not-deterministic", "hollowSphereRand from equal generator states differs");
+            copy = hc;
+        }
+        R     gcopy = r;
+        float g     = IM::gaussRand (r);
+        {
+            float g2 = IM::gaussRand (gcopy);
+            VP_REQUIRE (c, same<float> (g, g2), "sampler-not-deterministic", "gaussRand(" << rn << " seed " << seed << ") from equal generator states gives " << g << " and " << g2 << " (hidden state between calls?)");
+            R ra = r, rb = gcopy;
+            VP_REQUIRE (c, ra.probe () == rb.probe (), "sampler-state-not-deterministic", "gaussRand leaves different generator states for equal input states");
+            V gsa = IM::gaussSphereRand<V> (ra);
+            V gsb = IM::gaussSphereRand<V> (rb);
+            for (int i = 0; i < N; ++i)
+                VP_REQUIRE (c, same<T> (gsa[i], gsb[i]), "sampler-not-deterministic", "gaussSphereRand from equal generator states differs");
+            VP_REQUIRE (c, ra.probe () == rb.probe (), "sampler-state-not-deterministic", "gaussSphereRand leaves different generator states for equal input states");
+        }
         VP_REQUIRE (c, std::isfinite (g), "gaussRand-nonfinite", "gaussRand(" << rn << " seed " << seed << ") = " << g);
         c18_measure ("gauss-abs", std::fabs (g));
         VP_REQUIRE (c, std::fabs (g) < 16, "gaussRand-implausible", "gaussRand(" << rn << " seed " << seed << ") = " << g << " (|x| sqrt(-2 ln(l)/l) cannot exceed sqrt(-2 ln 2^-94) < 12)");
